@@ -35,7 +35,7 @@ func init() {
 		Run: run,
 		Floors: func(t string) map[string]int64 {
 			return map[string]int64{"api.struct": 100, "api.fields": 100, "kind.Point": 8, "kind.MultiPoint": 8, "kind.LineString": 8, "kind.MultiLineString": 8, "kind.Polygon": 8, "kind.*Bounds": 8,
-				"records.compared": 3000, "string.last_column": 50, "string.with_edge_blanks": 200, "ring.unclosed": 200, "ring.unclosed_by_a_hair": 100, "file.empty": 3, "column.string": 100, "column.int": 100, "column.float": 100, "string.at_field_width": 20, "schema.crossed_tags_and_names": 20, "decode.alternating_record_types": 30, "box.degenerate": 50, "schema.eleven_byte_names_sharing_ten": 20, "schema.names_longer_than_the_dbf_field": 20, "file.more_than_1000_records": 1}
+				"records.compared": 3000, "string.last_column": 50, "string.with_edge_blanks": 200, "ring.unclosed": 200, "ring.unclosed_by_a_hair": 100, "file.empty": 3, "column.string": 100, "column.int": 100, "column.float": 100, "string.at_field_width": 20, "schema.crossed_tags_and_names": 20, "decode.alternating_record_types": 30, "box.degenerate": 50, "schema.eleven_byte_names_sharing_ten": 20, "schema.names_longer_than_the_dbf_field": 20, "schema.long_name_cut_inside_a_two_byte_letter": 8, "file.more_than_1000_records": 1}
 		},
 	})
 }
@@ -285,6 +285,11 @@ func genColumns(r *gen.R) []column {
 				break
 			}
 			nm := string(rune('A'+i)) + "ttribute" + string(rune('a'+r.Intn(26))) + "WithALongName"[:r.IntRange(3, 13)]
+			if r.Chance(0.3) {
+				// a two-byte letter across the cut: the file keeps its first byte only
+				nm = nm[:10] + []string{"é", "Ø", "ñ", "ß"}[r.Intn(4)] + nm[10:]
+				cutInRune = true
+			}
 			cols[i].encName, cols[i].tag, cols[i].dbf = nm, "", nm
 			cols[i].decName, cols[i].decTag = nm, ""
 			if r.Chance(0.3) {
@@ -331,7 +336,7 @@ func genColumns(r *gen.R) []column {
 }
 
 // crossed / longNames report what the last genColumns call produced.
-var crossed, longNames, longerNames bool
+var crossed, longNames, longerNames, cutInRune bool
 
 func goType(kind string) reflect.Type {
 	switch kind {
@@ -375,10 +380,13 @@ func run(c *core.Ctx, idx int) {
 	r := c.R
 	kind := kinds[r.Intn(len(kinds))]
 	structAPI := r.Bool()
-	crossed, longNames, longerNames = false, false, false
+	crossed, longNames, longerNames, cutInRune = false, false, false, false
 	cols := genColumns(r)
 	if longNames {
 		c.Count("schema.eleven_byte_names_sharing_ten")
+	}
+	if cutInRune {
+		c.Count("schema.long_name_cut_inside_a_two_byte_letter")
 	}
 	if longerNames {
 		c.Count("schema.names_longer_than_the_dbf_field")
